@@ -167,7 +167,7 @@ theorem fastStep_steps {o : Oracle} {op : Nat} {c0 : SState} {n : Nat} {s s' : S
             · rename_i hfit
               simp only [Out.ok.injEq, Prod.mk.injEq] at h
               obtain ⟨h1, h2, h3⟩ := h
-              have e : (s', io') = fastRes o op s io := by rw [← h1, ← h2]; rfl
+              have e : (s', io') = ((fastRes o op s io).1, (fastRes o op s io).2) := by rw [← h1, ← h2]; rfl
               have hnf' : ¬ ((fastReq op s io).forceFlush = true ∧ fastBs s io = 0) := hnf
               have hcap' : ¬ fastCap (fastS1 s io) io (fastInplace s io) < 2 := hcap
               have hin' : ¬ fastBs s io > io.input.length := hin
